@@ -10,8 +10,11 @@ import (
 	"runtime"
 	"strings"
 	"sync"
+	"sync/atomic"
 	"time"
 )
+
+var rrHung int32
 
 // fakeBackend implements Backend and records what it receives.
 type fakeBackend struct {
@@ -31,6 +34,23 @@ func init() {
 		rr := NewRoundRobinBackend()
 		all := map[string][]*fakeBackend{}
 		msg := NewMessage()
+		// a pool operation that does not return (a lock left locked) must not wedge the run: 2 s watchdog per operation;
+		// after the first hang of a process the remaining cases answer "hang" at once
+		if atomic.LoadInt32(&rrHung) != 0 {
+			o.s("hang")
+			return
+		}
+		call := func(f func()) bool {
+			done := make(chan struct{})
+			go func() { f(); close(done) }()
+			select {
+			case <-done:
+				return true
+			case <-time.After(2 * time.Second):
+				atomic.StoreInt32(&rrHung, 1)
+				return false
+			}
+		}
 		for i := 0; i < n; i++ {
 			op, a := k.str(), k.str()
 			if k.bad {
@@ -40,14 +60,20 @@ func init() {
 			case "add":
 				b := &fakeBackend{addr: a}
 				all[a] = append(all[a], b)
-				rr.AddBackend(b)
+				if !call(func() { rr.AddBackend(b) }) {
+					o.s("hang")
+					return
+				}
 				o.s("added")
 			case "remove":
 				before := 0
 				for _, b := range all[a] {
 					before += b.closed
 				}
-				rr.RemoveBackend(a)
+				if !call(func() { rr.RemoveBackend(a) }) {
+					o.s("hang")
+					return
+				}
 				after := 0
 				for _, b := range all[a] {
 					after += b.closed
@@ -61,7 +87,11 @@ func init() {
 						before[b] = b.sent
 					}
 				}
-				err := rr.Send(msg)
+				var err error
+				if !call(func() { err = rr.Send(msg) }) {
+					o.s("hang")
+					return
+				}
 				got := "none"
 				cnt := 0
 				for _, l := range all {
@@ -86,7 +116,12 @@ func init() {
 			}
 		}
 		o.s("final")
-		s := strings.TrimPrefix(rr.GetAddress(), "RoundRobin://")
+		addrs := ""
+		if !call(func() { addrs = rr.GetAddress() }) {
+			o.s("hang")
+			return
+		}
+		s := strings.TrimPrefix(addrs, "RoundRobin://")
 		if s == "" {
 			o.i(0)
 		} else {
